@@ -104,3 +104,57 @@ BASE_ASSUME = [
     "MemoryError/RecursionError/KeyboardInterrupt/signals are not modelled",
     "template authors do not call underscore-prefixed Context methods or mutate the stacks directly",
 ]
+
+
+def _schema_one(args):
+    prog, prefix = args[0], args[1]
+    only = args[2] if len(args) > 2 else None
+    lf = LABEL_FILTERS.get(args[3]) if len(args) > 3 else None
+    from .schema.core import verify_program
+    try:
+        return verify_program(prog, prefix, only=only, label_filter=lf)
+    except Exception:
+        return [Result("%sschema[%s]" % (prefix, prog.name), ERROR, function="generated", output=traceback.format_exc()[-1200:])], \
+               {"program": prog.name, "source": prog.source, "functions": []}
+
+
+LABEL_FILTERS = {
+    "normal": lambda lab: not lab.startswith("exc-post") and not lab.startswith("no-raise"),
+    "exceptional": lambda lab: lab.startswith(("exc-post", "at-call", "loop-stack", "loop-name", "pre:", "no-raise", "raise-when")) or ":inv-" in lab,
+    "all": None,
+}
+
+
+def run_schema(rep: Report, programs, keep=None, labels="all"):
+    """Verify every generated function of every schema program; `keep(result)` filters which
+    obligations belong to the property at hand."""
+    prefix = rep.prop + "."
+    # one job per generated function (the functions of one program are independent units)
+    from .schema.core import list_functions
+    jobs = []
+    for p in programs:
+        quals = list_functions(p)
+        if not quals:
+            jobs.append((p, prefix, None, labels))
+        for q in quals:
+            jobs.append((p, prefix, [q], labels))
+    outs = pool_map(_schema_one, jobs)
+    nfun = 0
+    seen_prog = set()
+    for results, info in outs:
+        nfun += len(info.get("functions", []))
+        for r in results:
+            if keep is None or keep(r) or r.status in (ERROR,) or r.oid.endswith(".compile") or r.oid.endswith("module-syntax") \
+                    or (r.status == UNDECIDED and "outside the verified subset" in (r.output or "")):
+                rep.add(r)
+        if info.get("generated") and info["program"] not in seen_prog:
+            seen_prog.add(info["program"])
+            rep.function("generated:%s" % info["program"], info["generated"])
+            rep.sample({"schema_program": info["program"], "template": info["source"][:300]})
+    rep.extra_cov["schema_programs"] = len(programs)
+    rep.extra_cov["generated_functions_verified"] = nfun
+    rep.trust("schema: /verif/vrf/schema (schematic templates compiled by the real mako compiler on every run)",
+              "rule R3: structural induction over the parse tree - holes stand for arbitrary content under the induction hypothesis 'balanced'")
+    rep.assume("a hole (arbitrary template content, user expression or callable) leaves both stacks as it found them on normal and exceptional exit, "
+               "only extends the buffer that was on top, and does not touch buffers below (induction hypothesis, proved for every generated construct)",
+               "the schema family covers every branch predicate of the emitters (DESIGN 2.3 audit)")
